@@ -411,3 +411,74 @@ func TestVerifC11(t *testing.T) {
 	m.Rule = "the real App.checkRecovery on the marked host, 1-4 ticks 5-61 s apart: all 4 relations of its transaction set to the master's x replication none/running/stopped/error x read-only x stuck semi-sync commits x resetup file x mark present x recorded master (other host / itself / missing / unregistered) systematically (768 combinations x 3 ticks), plus random scenarios with the manager repairing the host in between and single failing calls; distinct = distinct inputs"
 	o.WriteMeta("c11", m)
 }
+
+// TestVerifC11Active: "while marked it is never in the published active list (unless it is the recorded master)":
+// the real updateActiveNodes over a marked host in every reachability situation (alive and replicating, dead within /
+// beyond the inactivation delay, dead with a health record still present, dubious ping), in and out of the old list,
+// semi-sync on and off; replayed against calc_active_nodes / update_active_nodes (C11_marked_host_is_not_active is
+// proved about that model)
+func TestVerifC11Active(t *testing.T) {
+	o := vk.Open()
+	m := vk.NewMeta()
+	run := func(in c04In) (out c04Out) {
+		synctest.Test(t, func(t *testing.T) { out = c04Run(in) })
+		return
+	}
+	var rp c04In
+	if vk.ReplayInput(&rp) && rp.N > 0 {
+		c04Monitor(m, rp, run(rp))
+		m.Evaluations = 1
+		o.WriteMeta("c11active", m)
+		return
+	}
+	imports := []string{"Gtid.GtidSet", "Base.Prog", "Base.Config", "Base.Replay", "Procs.NodeOps", "Procs.ActiveNodes", "Corr.C13", "Corr.C04"}
+	var cases []string
+	shard := 0
+	flush := func() {
+		if len(cases) > 0 {
+			o.CasesFile(fmt.Sprintf("c11a_%02d", shard), imports, "an_case", cases, "mismatches_an")
+			cases = nil
+			shard++
+		}
+	}
+	dist := vk.Distinct{}
+	for _, sit := range []string{"recovery", "recovery_dead", "recovery_dead_health_ok", "recovery_dubious"} {
+		for _, n := range []int{2, 3, 4} {
+			for _, inOld := range []bool{true, false} {
+				for _, ago := range []int{-1, 5, 31} {
+					for _, ss := range []bool{true, false} {
+						in := c04In{N: n, SemiSync: ss, WaitCfg: 1, MasterFirst: ago == 5, FaultAt: -1, Sits: []string{sit}, FailedAgo: []int{ago}}
+						old := []string{"h1"}
+						if inOld {
+							old = append(old, "h2")
+						}
+						for i := 3; i <= n; i++ {
+							in.Sits = append(in.Sits, "sync")
+							in.FailedAgo = append(in.FailedAgo, -1)
+							old = append(old, fmt.Sprintf("h%d", i))
+						}
+						in.OldActive = old
+						req := min(len(old)/2, 1)
+						in.MasterWait, in.MasterSS = max(req, 1), req > 0 && ss
+						out := run(in)
+						c04Monitor(m, in, out)
+						file := fmt.Sprintf("c11a_%02d", shard)
+						cases = append(cases, c04Case(in, out))
+						m.Cases[file] = append(m.Cases[file], in)
+						m.Evaluations++
+						m.Count("sit_" + sit)
+						dist.Add(fmt.Sprintf("%+v", in))
+						if len(cases) >= 60 {
+							flush()
+						}
+					}
+				}
+			}
+		}
+	}
+	flush()
+	m.DistinctNontrivial = dist.Len()
+	m.Exhaustive = true
+	m.Rule = "the real updateActiveNodes with host h2 marked for recovery x {alive and replicating, dead, dead with a health record, dubious ping} x in / not in the old list x failure clock none / 5 s / 31 s x semi-sync on / off x 2-4 hosts (complete grid); published list checked by the monitor and the run replayed against the model"
+	o.WriteMeta("c11active", m)
+}
